@@ -144,3 +144,39 @@ def _custom(inst, p):
         if any(g(a) is not None for a in ("grossdist", "taxamt", "fedtaxwh", "sttaxwh", "lcltaxwh")) and g("irasepsimp") is None:
             out.append(f"{p}: irasepsimp required")
     return out
+
+
+def tree_violations(elem, cls=None, path=""):
+    """Sequence-order / repetition rules of a class applied to an element tree (independent of the library):
+    declared children must appear in declaration order, a non-repeatable child at most once; list members may be
+    interleaved with each other in any order; tags the class does not declare are ignored (C07)."""
+    if cls is None:
+        cls = M.universe().get(elem.tag)
+        if cls is None:
+            return []
+    out = []
+    p = path + "/" + cls.__name__
+    pos = {}
+    kinds = {}
+    for i, (attr, kind, t) in enumerate(M.decl(cls)):
+        tag = M.tag_of(cls, attr) if kind != "listagg" else t.__type__.__name__
+        pos[tag] = i
+        kinds[tag] = (kind, t)
+    prev = None  # (index, is_list)
+    seen = set()
+    for child in elem:
+        if "." in child.tag or child.tag not in pos:
+            continue
+        i = pos[child.tag]
+        kind, t = kinds[child.tag]
+        is_list = kind in ("listagg", "listelem")
+        if not is_list:
+            if child.tag in seen:
+                out.append(f"{p}: <{child.tag}> occurs twice")
+            seen.add(child.tag)
+        if prev is not None and i <= prev[0] and not (is_list and prev[1]) and not (not is_list and child.tag in seen and i == prev[0]):
+            out.append(f"{p}: <{child.tag}> after a child declared later")
+        prev = (i, is_list)
+        if kind in ("sub", "listagg") and len(child):
+            out += tree_violations(child, t.__type__, p)
+    return out
